@@ -156,7 +156,7 @@ def invoke_variants(ctx, rng):
                     if e.kind == 'f':
                         r_ = comp.find_symbol(e.name)(**kwargs)
                     elif e.kind == 'b':
-                        r_ = getattr(comp.find_symbol('EX'), e.name)(**kwargs)
+                        r_ = getattr(comp.find_symbol(e.owner), e.name)(**kwargs)
                     elif e.kind == 'cop':
                         r_ = getattr(comp.find_class('K'), e.name)(**kwargs)
                     else:
